@@ -910,6 +910,11 @@ fn c07_gates() {
         gate_battery(&format!("{ctag} BaseSumGate<2>(5)"), || BaseSumGate::<2>::new(5), cfg, &mut bad, &mut cases);
         gate_battery(&format!("{ctag} BaseSumGate<2>(1)"), || BaseSumGate::<2>::new(1), cfg, &mut bad, &mut cases);
         gate_battery(&format!("{ctag} BaseSumGate<4>(3)"), || BaseSumGate::<4>::new(3), cfg, &mut bad, &mut cases);
+        gate_battery(&format!("{ctag} BaseSumGate<3>(4)"), || BaseSumGate::<3>::new(4), cfg, &mut bad, &mut cases);
+        gate_battery(&format!("{ctag} BaseSumGate<5>(2)"), || BaseSumGate::<5>::new(2), cfg, &mut bad, &mut cases);
+        gate_battery(&format!("{ctag} BaseSumGate<7>(3)"), || BaseSumGate::<7>::new(3), cfg, &mut bad, &mut cases);
+        gate_battery(&format!("{ctag} CosetInterpolationGate(3)"), || CosetInterpolationGate::<F, D>::new(3), cfg, &mut bad, &mut cases);
+        gate_battery(&format!("{ctag} RandomAccessGate(3)"), || RandomAccessGate::<F, D>::new_from_config(cfg, 3), cfg, &mut bad, &mut cases);
         gate_battery(&format!("{ctag} ConstantGate(2)"), || ConstantGate::new(2), cfg, &mut bad, &mut cases);
         gate_battery(&format!("{ctag} ExponentiationGate(5)"), || ExponentiationGate::<F, D>::new(5), cfg, &mut bad, &mut cases);
         gate_battery(&format!("{ctag} ExponentiationGate(1)"), || ExponentiationGate::<F, D>::new(1), cfg, &mut bad, &mut cases);
@@ -1254,7 +1259,11 @@ impl<'a> Adv<'a> {
     fn public_inputs(&self) -> Vec<F> { self.data.prover_only.public_inputs.iter().map(|&t| self.get(t)).collect() }
 
     /// does the assignment violate a gate relation, a copy constraint of the original circuit, or the public-input link?
-    fn violates(&self) -> bool {
+    fn violates(&self) -> bool { self.violation_kind() != 0 }
+
+    /// 0: satisfies the circuit; 1: only copy constraints are violated (every gate relation holds); 2: some gate relation is violated
+    fn violation_kind(&self) -> u8 {
+        let mut copy_violated = false;
         use crate::plonk::vars::EvaluationVars;
         let common = &self.data.common;
         let n = common.degree();
@@ -1264,7 +1273,7 @@ impl<'a> Adv<'a> {
         let mut class_val: std::collections::HashMap<usize, F> = std::collections::HashMap::new();
         for i in 0..n * common.config.num_wires {
             if let Some(v) = self.values[self.map[i]] {
-                match class_val.get(&orig[i]) { Some(&u) => { if u != v { return true; } } None => { class_val.insert(orig[i], v); } }
+                match class_val.get(&orig[i]) { Some(&u) => { if u != v { copy_violated = true; } } None => { class_val.insert(orig[i], v); } }
             }
         }
         // gate relations, row by row, with the constants of the built circuit
@@ -1278,10 +1287,32 @@ impl<'a> Adv<'a> {
                 let s = common.selectors_info.selector_indices[i];
                 if consts[s][r] != F::from_canonical_usize(i) { continue; }
                 let vars = EvaluationVars { local_constants: &lc[nsel + common.num_lookup_selectors..], local_wires: &lw, public_inputs_hash: &pih };
-                if g.0.eval_unfiltered(vars).iter().any(|c| !c.is_zero()) { return true; }
+                if g.0.eval_unfiltered(vars).iter().any(|c| !c.is_zero()) { return 2; }
             }
         }
-        false
+        if copy_violated { 1 } else { 0 }
+    }
+
+    /// the same assignment under the degenerate prover strategies of the property's catalogue (needs the guarded prover hooks of /repo,
+    /// cargo feature `verif_hooks`; without them only the ordinary protocol is run)
+    fn outcomes_adversarial(&self) -> Vec<(&'static str, &'static str)> {
+        let mut v = Vec::new();
+        #[cfg(feature = "verif_hooks")]
+        {
+            use crate::plonk::prover::verif_hooks::{set, Strategy};
+            for (name, st) in [
+                ("all-zero permutation accumulator", Strategy { zero_permutation_polys: true, perturb_quotient_of_challenge: None, lenient_quotient_truncation: true }),
+                ("quotient truncated instead of aborting", Strategy { zero_permutation_polys: false, perturb_quotient_of_challenge: None, lenient_quotient_truncation: true }),
+                ("quotient altered for challenge 0", Strategy { zero_permutation_polys: false, perturb_quotient_of_challenge: Some(0), lenient_quotient_truncation: true }),
+                ("quotient altered for the last challenge, zero accumulator", Strategy { zero_permutation_polys: true, perturb_quotient_of_challenge: Some(self.data.common.config.num_challenges - 1), lenient_quotient_truncation: true }),
+            ] {
+                set(st);
+                let o = self.outcome();
+                set(Strategy::default());
+                v.push((name, o));
+            }
+        }
+        v
     }
 
     /// run the proving protocol on the assignment; "ACCEPTED" if the verifier accepts what comes back
@@ -1351,7 +1382,7 @@ fn c02_witness_corruption() {
     // the permutation product is then a partial one
     let mut narrow = CircuitConfig::standard_recursion_config(); narrow.num_routed_wires = 37;
     let mut all = Vec::new();
-    for (ctag, cfg) in [("std", CircuitConfig::standard_recursion_config()), ("37 routed wires", narrow)] { for (t, d, w) in c02_circuits(&cfg) { all.push((format!("{t} [{ctag}]"), d, w)); } }
+    for (ctag, cfg) in [("std", CircuitConfig::standard_recursion_config()), ("37 routed wires", narrow)] { for (t, d, w) in c02_circuits(&cfg) { if ctag != "std" && t.starts_with("poseidon") { continue; } all.push((format!("{t} [{ctag}]"), d, w)); } }
     for (tag, data, pw) in all {
         let tag = tag.as_str();
         let Some(base) = Adv::new(&data, pw) else { bad.push(format!("{tag}: honest witness generation failed")); continue; };
@@ -1381,6 +1412,12 @@ fn c02_witness_corruption() {
                     cases += 1; budget += 1;
                     let o = a.outcome();
                     if o == "ACCEPTED" || o == "verifier PANICKED" { bad.push(format!("{tag}: wire (row {r}, column {c}) {} by +{}: violating assignment -> {o}", if mode == 0 { "cell changed" } else { "copy class changed" }, delta.to_canonical_u64())); }
+                    // degenerate prover strategies on a sample of the violating assignments
+                    // (all-zero accumulators make every permutation term vanish, so the interesting victims are the assignments that violate ONLY copy constraints)
+                    if a.violation_kind() == 1 || budget <= 3 || (r * 3 + c) % 29 == 0 {
+                        for (sname, o) in a.outcomes_adversarial() { cases += 1;
+                            if o == "ACCEPTED" || o == "verifier PANICKED" { bad.push(format!("{tag}: wire (row {r}, column {c}) {} by +{}: violating assignment, prover strategy `{sname}` -> {o}", if mode == 0 { "cell changed" } else { "copy class changed" }, delta.to_canonical_u64())); } }
+                    }
                 }
             }
         }
@@ -1539,6 +1576,80 @@ fn c08_lookups() {
         }
     }
     finish("c08_lookups", cases, bad);
+}
+
+// C07: gate types are told apart by their id (registration, selectors and serialisation are id-based), and the native and in-circuit evaluation of ALL
+// gate constraints of a circuit agree on random openings, also for circuits with lookup tables
+#[test]
+fn c07_gate_ids_and_circuit_evaluation() {
+    use crate::gates::base_sum::BaseSumGate;
+    use crate::gates::gate::Gate;
+    use crate::gates::random_access::RandomAccessGate;
+    use crate::gates::exponentiation::ExponentiationGate;
+    use crate::gates::reducing::ReducingGate;
+    use crate::gates::reducing_extension::ReducingExtensionGate;
+    use crate::gates::constant::ConstantGate;
+    use crate::gates::arithmetic_base::ArithmeticGate;
+    use crate::gates::coset_interpolation::CosetInterpolationGate;
+    use crate::field::types::Sample;
+    use crate::iop::generator::generate_partial_witness;
+    use crate::iop::witness::Witness;
+    use crate::plonk::vanishing_poly::{evaluate_gate_constraints, evaluate_gate_constraints_circuit};
+    use crate::plonk::vars::{EvaluationTargets, EvaluationVars};
+    use std::sync::Arc;
+    let mut bad = Vec::new();
+    let mut cases = 0usize;
+    let cfg = CircuitConfig::standard_recursion_config();
+    let ids: Vec<(String, String)> = vec![
+        ("BaseSumGate<2>(8)".into(), <BaseSumGate<2> as Gate<F, D>>::id(&BaseSumGate::<2>::new(8))), ("BaseSumGate<4>(8)".into(), <BaseSumGate<4> as Gate<F, D>>::id(&BaseSumGate::<4>::new(8))),
+        ("BaseSumGate<3>(8)".into(), <BaseSumGate<3> as Gate<F, D>>::id(&BaseSumGate::<3>::new(8))), ("BaseSumGate<2>(9)".into(), <BaseSumGate<2> as Gate<F, D>>::id(&BaseSumGate::<2>::new(9))),
+        ("RandomAccessGate(2)".into(), RandomAccessGate::<F, D>::new_from_config(&cfg, 2).id()), ("RandomAccessGate(3)".into(), RandomAccessGate::<F, D>::new_from_config(&cfg, 3).id()),
+        ("ExponentiationGate(5)".into(), ExponentiationGate::<F, D>::new(5).id()), ("ExponentiationGate(6)".into(), ExponentiationGate::<F, D>::new(6).id()),
+        ("ReducingGate(5)".into(), <ReducingGate<D> as Gate<F, D>>::id(&ReducingGate::<D>::new(5))), ("ReducingExtensionGate(5)".into(), <ReducingExtensionGate<D> as Gate<F, D>>::id(&ReducingExtensionGate::<D>::new(5))),
+        ("ReducingGate(6)".into(), <ReducingGate<D> as Gate<F, D>>::id(&ReducingGate::<D>::new(6))),
+        ("ConstantGate(2)".into(), <ConstantGate as Gate<F, D>>::id(&ConstantGate::new(2))), ("ConstantGate(3)".into(), <ConstantGate as Gate<F, D>>::id(&ConstantGate::new(3))),
+        ("ArithmeticGate(20)".into(), <ArithmeticGate as Gate<F, D>>::id(&ArithmeticGate { num_ops: 20 })), ("ArithmeticGate(9)".into(), <ArithmeticGate as Gate<F, D>>::id(&ArithmeticGate { num_ops: 9 })),
+        ("CosetInterpolationGate(2)".into(), CosetInterpolationGate::<F, D>::new(2).id()), ("CosetInterpolationGate(3)".into(), CosetInterpolationGate::<F, D>::new(3).id()),
+    ];
+    for i in 0..ids.len() { for j in 0..i { cases += 1; if ids[i].1 == ids[j].1 { bad.push(format!("gate types {} and {} share the id {:?}", ids[j].0, ids[i].0, ids[i].1)); } } }
+    // two parameterisations of one gate type in one circuit: both get their own rows and constraints
+    {
+        let mut b = CircuitBuilder::<F, D>::new(cfg.clone());
+        let x = b.add_virtual_target(); let y = b.add_virtual_target();
+        let lx = b.split_le_base::<2>(x, 8); let ly = b.split_le_base::<4>(y, 8);
+        b.register_public_input(lx[3]); b.register_public_input(ly[3]);
+        let data = b.build::<PC>();
+        let mut pw = PartialWitness::new(); pw.set_target(x, F::from_canonical_u64(0xA5)).unwrap(); pw.set_target(y, F::from_canonical_u64(0xE4E4)).unwrap();
+        cases += 1;
+        match catch_unwind(AssertUnwindSafe(|| data.prove(pw))) { Ok(Ok(p)) => { if data.verify(p).is_err() { bad.push("circuit with base-2 and base-4 decompositions of 8 limbs: honest proof rejected".into()); } } _ => bad.push("circuit with base-2 and base-4 decompositions of 8 limbs: not provable".into()) }
+    }
+    // whole-circuit gate evaluation: native vs in-circuit on random openings, for circuits without and with 1 / 2 / 3 lookup tables
+    for num_luts in 0..4usize {
+        let mut b = CircuitBuilder::<F, D>::new(cfg.clone());
+        let x = b.add_virtual_target(); b.register_public_input(x);
+        let sq = b.mul(x, x); let h = b.hash_n_to_hash_no_pad::<PoseidonHash>(vec![x, sq]); b.register_public_inputs(&h.elements);
+        let bits = b.split_le(x, 6); let e = b.exp_from_bits(sq, bits.iter()); b.register_public_input(e);
+        for t in 0..num_luts { let table: Vec<(u16, u16)> = (0..16u16).map(|i| (i, (i * 3 + t as u16) % 40)).collect(); let ti = b.add_lookup_table_from_pairs(Arc::new(table)); let o = b.add_lookup_from_index(bits[0].target, ti); b.register_public_input(o); }
+        let data = b.build::<PC>();
+        let cd = &data.common;
+        let consts = FE::rand_vec(cd.num_constants); let wires = FE::rand_vec(cd.config.num_wires); let pih = HashOut::<F>::rand();
+        let native = evaluate_gate_constraints::<F, D>(cd, EvaluationVars { local_constants: &consts, local_wires: &wires, public_inputs_hash: &pih });
+        cases += 1;
+        let r = catch_unwind(AssertUnwindSafe(|| -> anyhow::Result<Vec<FE>> {
+            let mut pw = PartialWitness::new();
+            let mut b2 = CircuitBuilder::<F, D>::new(cfg.clone());
+            let ct = b2.add_virtual_extension_targets(consts.len()); let wt = b2.add_virtual_extension_targets(wires.len()); let ht = b2.add_virtual_hash();
+            pw.set_extension_targets(&ct, &consts)?; pw.set_extension_targets(&wt, &wires)?; pw.set_hash_target(ht, pih)?;
+            let out = evaluate_gate_constraints_circuit::<F, D>(&mut b2, cd, EvaluationTargets { local_constants: &ct, local_wires: &wt, public_inputs_hash: &ht });
+            let d2 = b2.build_prover::<PC>();
+            let w = generate_partial_witness(pw, &d2.prover_only, &d2.common)?;
+            Ok(out.iter().map(|&t| w.get_extension_target(t)).collect())
+        }));
+        match r { Ok(Ok(v)) => { if v != native { bad.push(format!("circuit with {num_luts} lookup tables: in-circuit evaluation of the gate constraints differs from the native one")); } }
+                  Ok(Err(e)) => bad.push(format!("circuit with {num_luts} lookup tables: in-circuit evaluation of the gate constraints failed: {e}")),
+                  Err(_) => bad.push(format!("circuit with {num_luts} lookup tables: in-circuit evaluation of the gate constraints PANICKED")) }
+    }
+    finish("c07_gate_ids_and_circuit_evaluation", cases, bad);
 }
 
 // C13: the linear layers of Poseidon against a u128 oracle, on magnitude classes and on states steered to the carry boundaries
